@@ -118,6 +118,12 @@ func errText(err error) string {
 	if err == nil {
 		return ""
 	}
+	var oe *ugo.OptimizerError
+	if errors.As(err, &oe) {
+		// the optimizer refuses a script whose constant sub-expression fails: a compile-time failure (nothing ran,
+		// nothing was printed) carrying the runtime error's name
+		return "compile:optimizer:" + uv.ErrRepr(err)
+	}
 	if n := uv.ErrName(err); n != "" {
 		return uv.ErrRepr(err)
 	}
@@ -281,7 +287,10 @@ func compareCut(c *fw.Ctx, key string, seq []int, frags []string, lastIsExpr []b
 			return false
 		}
 		compileFail := strings.HasPrefix(ra.err, "compile:") || strings.HasPrefix(rb.err, "compile:")
-		same := ra.err == rb.err && (ra.val == rb.val || !lastIsExpr[k])
+		// a constant sub-expression that fails: the fragment alone may fail at run time (or be refused) while the
+		// concatenation is refused by the optimizer with the same error, or the other way round
+		strip := func(e string) string { return strings.TrimPrefix(e, "compile:optimizer:") }
+		same := strip(ra.err) == strip(rb.err) && (ra.val == rb.val || !lastIsExpr[k])
 		if same && !compileFail && ra.out != rb.out {
 			same = false
 		}
